@@ -53,7 +53,14 @@ def one_batch(ctx, graphs, tag):
     reps = ctx.driver.batch([{"op": "simplified", "graph": enc(g.asdict())} for g in graphs])
     for g, r in zip(graphs, reps):
         a = g.asdict()
-        s = g.asdict_simplified()
+        try:
+            s = g.asdict_simplified()
+        except Exception as e:  # noqa: BLE001
+            # the simplified form of a valid graph must exist (C05: "is itself an acceptable document")
+            ctx.count(show(canon(a)), True, tags=[tag, "asdict_simplified raises"])
+            ctx.violation(f"asdict_simplified() raises on a valid graph ({type(e).__name__}: {str(e)[:80]})", {"graph": show(canon(a))},
+                          python="g.asdict_simplified()")
+            continue
         nontriv = json.dumps(show(canon(s))) != json.dumps(show(canon(a)))
         ctx.count(show(canon(a)), nontriv, tags=[tag, f"symmetric_groups={sum(1 for m in s.get('migrations', []) if 'demes' in m)}"])
         ctx.compared += 1
